@@ -58,7 +58,27 @@ def pr(e, lvl=0):
         return "(-%s)" % pr(e[1], 3)
     if k == "delay":
         return "delay(%s, %s)" % (pr(e[1]), pr(e[2]))
+    if k == "if":
+        return "(if %s %s %s then %s else %s)" % (pr(e[2]), e[1], pr(e[3]), pr(e[4]), pr(e[5]))
+    if k == "abs":
+        return "abs(%s)" % pr(e[1])
+    if k in ("min", "max"):
+        return "%s(%s, %s)" % (k, pr(e[1]), pr(e[2]))
     raise ValueError(k)
+
+
+NONPOLY = ("if", "abs", "min", "max")
+
+
+def children(e):
+    k = e[0]
+    if k in ("neg", "abs"):
+        return [e[1]]
+    if k in ("add", "sub", "mul", "delay", "min", "max"):
+        return [e[1], e[2]]
+    if k == "if":                      # ["if", rel, c1, c2, then, else]
+        return [e[2], e[3], e[4], e[5]]
+    return []
 
 
 def used_names(case):
@@ -67,11 +87,8 @@ def used_names(case):
     def walk(e):
         if e[0] in ("v", "el", "vi", "der"):
             out.add(e[1])
-        elif e[0] in ("add", "sub", "mul", "delay"):
-            walk(e[1])
-            walk(e[2])
-        elif e[0] == "neg":
-            walk(e[1])
+        for c in children(e):
+            walk(c)
     for q in case["eqs"]:
         for b in ([q] if q[0] == "eq" else q[3]):
             walk(b[1])
@@ -116,6 +133,9 @@ def poly(e, dly):
         return {(tuple(e),): Fraction(1)}
     if k == "delay":
         return {(("dly", dly[id(e)]),): Fraction(1)}
+    if k in NONPOLY:
+        NP[id(e)] = e
+        return {(("np", id(e)),): Fraction(1)}
     if k == "neg":
         return {m: -c for m, c in poly(e[1], dly).items()}
     a, b = poly(e[1], dly), poly(e[2], dly)
@@ -132,8 +152,24 @@ def poly(e, dly):
     return {m: c for m, c in r.items() if c}
 
 
+NP = {}          # id -> piecewise node met by poly() (kept alive by the case it belongs to)
+
+
 def atoms_of(p):
     return {a for m in p for a in m}
+
+
+def dep_atoms(e, dly):
+    """What e depends on: the atoms of its exact polynomial; a piecewise node (if / abs / min / max) depends
+    on everything its operands depend on - for an if-expression that includes the CONDITION."""
+    out = set()
+    for a in atoms_of(poly(e, dly)):
+        if a[0] == "np":
+            for c in children(NP[a[1]]):
+                out |= dep_atoms(c, dly)
+        else:
+            out.add(a)
+    return out
 
 
 def syn_atoms(e, dly):
@@ -146,6 +182,11 @@ def syn_atoms(e, dly):
         return {tuple(e)}, None
     if k == "delay":
         return {("dly", dly[id(e)])}, None
+    if k in NONPOLY:
+        out = set()
+        for c in children(e):
+            out |= syn_atoms(c, dly)[0]
+        return out, None
     if k == "neg":
         s, c = syn_atoms(e[1], dly)
         return s, (None if c is None else -c)
@@ -169,11 +210,9 @@ def collect_delays(case):
             walk(e[2], loop)
             dly[id(e)] = len(recs)
             recs.append({"node": e, "e": e[1], "d": e[2], "loop": loop})
-        elif k in ("add", "sub", "mul"):
-            walk(e[1], loop)
-            walk(e[2], loop)
-        elif k == "neg":
-            walk(e[1], loop)
+        else:
+            for c in children(e):
+                walk(c, loop)
     for q in case["eqs"]:
         if q[0] == "eq":
             walk(q[1], None)
@@ -191,11 +230,8 @@ def der_names(case):
     def walk(e):
         if e[0] == "der":
             out.add(e[1])
-        elif e[0] in ("add", "sub", "mul", "delay"):
-            walk(e[1])
-            walk(e[2])
-        elif e[0] == "neg":
-            walk(e[1])
+        for c in children(e):
+            walk(c)
     for q in case["eqs"]:
         for b in ([q] if q[0] == "eq" else q[3]):
             walk(b[1])
@@ -244,7 +280,15 @@ def evaluate(e, pt, dly, i=None):
         return Fraction(pt["vals"]["_pymoca_delay_%d" % dly[id(e)]][0])
     if k == "neg":
         return -evaluate(e[1], pt, dly, i)
+    if k == "abs":
+        return abs(evaluate(e[1], pt, dly, i))
+    if k == "if":
+        x, y = evaluate(e[2], pt, dly, i), evaluate(e[3], pt, dly, i)
+        c = {">": x > y, "<": x < y, ">=": x >= y, "<=": x <= y}[e[1]]
+        return evaluate(e[4] if c else e[5], pt, dly, i)
     a, b = evaluate(e[1], pt, dly, i), evaluate(e[2], pt, dly, i)
+    if k in ("min", "max"):
+        return min(a, b) if k == "min" else max(a, b)
     return a + b if k == "add" else a - b if k == "sub" else a * b
 
 
@@ -256,18 +300,49 @@ def body_free_atoms(case, loop_eq, dly):
     """Atoms of the loop body's residuals with every delay call replaced by its delayed-state symbol."""
     out = set()
     for b in loop_eq[3]:
-        out |= atoms_of(poly(["sub", b[1], b[2]], dly))
+        out |= dep_atoms(["sub", b[1], b[2]], dly)
     return out
+
+
+def alias_applies(case, rhs):
+    """simplify(): `d = s` / `d = -s` eliminates the algebraic d when detect_aliases is on and s is a scalar
+    symbol (an array element only after expand_vectors)."""
+    o = case.get("options") or {}
+    if not o.get("detect_aliases"):
+        return False
+    leaf = rhs[1] if rhs[0] == "neg" else rhs
+    return leaf[0] == "v" or (leaf[0] == "el" and bool(o.get("expand_vectors")))
+
+
+def resolved(case):
+    """The case with every eliminated alias variable replaced by what it stands for (option stream)."""
+    al = {d: r for d, r in (case.get("aliases") or {}).items() if alias_applies(case, r)}
+    if not al:
+        return case
+
+    def sub(e):
+        if e[0] == "v" and e[1] in al:
+            return json.loads(json.dumps(al[e[1]]))
+        return [sub(x) if isinstance(x, list) else x for x in e]
+    eqs = []
+    for q in case["eqs"]:
+        if q[0] == "eq" and q[1][0] == "v" and q[1][1] in al:
+            continue                                   # the alias equation itself disappears
+        eqs.append(sub(q))
+    c = dict(case)
+    c["eqs"] = eqs
+    return c
 
 
 def analyse(case):
     """Everything the property says about a case.  -> dict"""
+    case = resolved(case)
     recs, dly = collect_delays(case)
     ders = der_names(case)
     info = {"n": len(recs), "reject_because": [], "loop_dur": [], "assert_class": False, "vec_class": False,
             "recs": recs, "dly": dly}
     for k, r in enumerate(recs):
-        atoms = atoms_of(poly(r["d"], dly))
+        atoms = dep_atoms(r["d"], dly)
         for a in sorted(atoms):
             c = category(case, a, ders)
             if c not in ALLOWED:
@@ -275,7 +350,7 @@ def analyse(case):
                                                a[0] in ("vi",)))
         if r["loop"] and loop_atoms(atoms):
             info["loop_dur"].append(k)
-        r["indexed"] = bool(r["loop"]) and any(a[0] == "vi" for a in atoms_of(poly(r["e"], dly)))
+        r["indexed"] = bool(r["loop"]) and any(a[0] == "vi" for a in dep_atoms(r["e"], dly))
     # generator.py:486 assert: free symbols of an indexed loop delay's expression must occur in the loop body
     for q in case["eqs"]:
         if q[0] != "for":
@@ -283,10 +358,10 @@ def analyse(case):
         body = {a if a[0] != "el" else ("v", a[1]) for a in body_free_atoms(case, q, dly)}
         for r in recs:
             if r["indexed"] and any(r["node"] is n for n in nodes_of(q)):
-                need = {a if a[0] != "el" else ("v", a[1]) for a in atoms_of(poly(r["e"], dly)) if a[0] not in ("vi", "i")}
+                need = {a if a[0] != "el" else ("v", a[1]) for a in dep_atoms(r["e"], dly) if a[0] not in ("vi", "i")}
                 if not need <= body:
                     info["assert_class"] = True
-                if any(a[0] == "el" for a in atoms_of(poly(r["e"], dly))):
+                if any(a[0] == "el" for a in dep_atoms(r["e"], dly)):
                     info["vec_class"] = True
     return info
 
@@ -297,11 +372,8 @@ def nodes_of(loop_eq):
     def walk(e):
         if e[0] == "delay":
             out.append(e)
-        if e[0] in ("add", "sub", "mul", "delay"):
-            walk(e[1])
-            walk(e[2])
-        elif e[0] == "neg":
-            walk(e[1])
+        for c in children(e):
+            walk(c)
     for b in loop_eq[3]:
         walk(b[1])
         walk(b[2])
@@ -343,6 +415,9 @@ def judge(case, res):
         return (TAG_ACCEPT if only_via_loop else "accepted-invalid",
                 "accepted although the duration of delay %d depends on %s (%s)" % (k, what, cat))
     n = info["n"]
+    strip = (lambda s_: s_[:-5] if s_.endswith("[1,1]") else s_) if (case.get("options") or {}).get("expand_vectors") \
+        else (lambda s_: s_)
+    res = dict(res, delay_states=[strip(x) for x in res["delay_states"]], inputs=[[strip(a), b] for a, b in res["inputs"]])
     if res["delay_states"] != ["_pymoca_delay_%d" % k for k in range(n)] or res["n_delay_arguments"] != n:
         return ("delay-list", "delay_states = %s, expected %d delays in creation order" % (res["delay_states"], n))
     inp = dict((a, b) for a, b in res["inputs"])
@@ -399,7 +474,13 @@ def enc_expr(e, ids):
         return "Ref (SDer %s)" % cq_nat(ids[e[1]])
     if k == "neg":
         return "Neg (%s)" % enc_expr(e[1], ids)
-    return "%s (%s) (%s)" % ({"add": "Add", "sub": "Sub", "mul": "Mul", "delay": "Delay"}[k],
+    if k == "abs":
+        return "Abs (%s)" % enc_expr(e[1], ids)
+    if k == "if":
+        c1, c2 = (e[2], e[3]) if e[1] in (">", ">=") else (e[3], e[2])
+        return "Ite %s (%s) (%s) (%s) (%s)" % ("true" if e[1] in (">=", "<=") else "false", enc_expr(c1, ids),
+                                               enc_expr(c2, ids), enc_expr(e[4], ids), enc_expr(e[5], ids))
+    return "%s (%s) (%s)" % ({"add": "Add", "sub": "Sub", "mul": "Mul", "delay": "Delay", "min": "Min", "max": "Max"}[k],
                              enc_expr(e[1], ids), enc_expr(e[2], ids))
 
 
@@ -432,6 +513,8 @@ def enc_point(pt, ids):
 
 def encode_case(case, res):
     """-> Gallina term of type model * list envd * obs, or None when the observation has no model counterpart."""
+    if (case.get("options") or {}).get("detect_aliases"):
+        return None                                   # alias elimination is not modelled (oracle only)
     m, ids = enc_model(case)
     pts = cq_list([enc_point(p, ids) for p in case["points"]])
     st = res.get("status")
@@ -530,7 +613,7 @@ def combine(rng, leaves):
     return e
 
 
-def gen_duration(rng, in_loop, want_bad, bad_kind=None):
+def gen_duration(rng, in_loop, want_bad, bad_kind=None, p_piece=0.25):
     for _ in range(50):
         leaves = [leaf_allowed(rng, in_loop) for _ in range(rng.randint(1, 3))]
         if want_bad:
@@ -542,7 +625,24 @@ def gen_duration(rng, in_loop, want_bad, bad_kind=None):
             b = leaf_bad(rng, in_loop, allow_delay=False)
             leaves.append(["mul", b, z] if rng.random() < 0.5 else ["mul", z, b])
             rng.shuffle(leaves)
-        e = combine(rng, leaves)
+        x = rng.random()
+        if x < p_piece and len(leaves) >= 2:
+            # piecewise duration: the LAST leaf after shuffling may be the bad one -> put one leaf in the condition
+            rng.shuffle(leaves)
+            c = leaves.pop()
+            rest = combine(rng, leaves) if leaves else ["v", "p1"]
+            y = rng.random()
+            if y < 0.6:
+                cond2 = rng.choice([["num", 1], ["num", 0], ["v", "p2"], ["v", "c1"]])
+                e = ["if", rng.choice([">", "<", ">=", "<="]), c, cond2, rest, ["mul", ["num", 2], ["v", "p1"]]]
+                if rng.random() < 0.4:
+                    e = ["add", ["v", "c2"], e]
+            elif y < 0.75:
+                e = ["add", ["abs", c], rest]
+            else:
+                e = [rng.choice(["min", "max"]), c, rest] if rng.random() < 0.5 else [rng.choice(["min", "max"]), rest, c]
+        else:
+            e = combine(rng, leaves)
         if consistent(e):
             return e
     return ["v", "p1"]
@@ -552,7 +652,13 @@ def consistent(e):
     """Generator filter: exact dependency set == occurrence set after literal folding (so that CasADi's own,
     richer, simplifier cannot make a difference)."""
     recs, dly = collect_delays({"eqs": [["eq", ["num", 0], e]]})
-    return atoms_of(poly(e, dly)) == syn_atoms(e, dly)[0]
+
+    def pieces_ok(x):
+        if x[0] == "if":
+            if not atoms_of(poly(["sub", x[2], x[3]], dly)) or poly(x[4], dly) == poly(x[5], dly):
+                return False
+        return all(pieces_ok(c) for c in children(x))
+    return dep_atoms(e, dly) == syn_atoms(e, dly)[0] and pieces_ok(e)
 
 
 def gen_expr(rng, in_loop, indexed, p_vec=0.06):
@@ -648,7 +754,7 @@ def gen_model(rng, p_bad=0.22, p_loopdep=0.04, p_nohelper=0.04, kind="random"):
                     rhs = ["add", ["mul", ["num", 2], rhs], ["vi", "av"]]
                 body.append(["eq", ["vi", yn], rhs])
                 _, dl = collect_delays({"eqs": [["eq", ["num", 0], e]]})
-                for a in atoms_of(poly(e, dl)):
+                for a in dep_atoms(e, dl):
                     if a[0] in ("v", "time", "der"):
                         need.add(a)
                     elif a[0] == "el":
@@ -685,6 +791,66 @@ def gen_model(rng, p_bad=0.22, p_loopdep=0.04, p_nohelper=0.04, kind="random"):
     return case
 
 
+OPTION_SETS = [{"expand_vectors": True}, {"detect_aliases": True}, {"expand_vectors": True, "detect_aliases": True}]
+ALIAS_RHS = [["v", "p1"], ["v", "c1"], ["v", "uf"], ["v", "u1"], ["v", "x1"], ["v", "a1"], ["el", "pv", 2], ["el", "cv", 3],
+             ["el", "ufv", 1], ["el", "uv", 2], ["el", "av", 1], ["neg", ["v", "p2"]], ["neg", ["v", "u1"]],
+             ["mul", ["num", 2], ["v", "p1"]]]
+ONLY_DUR = [["el", "pv", 1], ["el", "pv", 3], ["el", "cv", 2], ["el", "ufv", 2], ["el", "ufv", 3], ["el", "uv", 1],
+            ["el", "uv", 3], ["el", "av", 2], ["el", "bv", 3], ["v", "d1"], ["v", "d2"], ["v", "p2"], ["v", "uf"], ["num", 3]]
+
+
+def gen_option_case(rng, options=None, forced=None):
+    """Non-default simplification options.  No for-loops; array elements and alias variables (d = u, d = p, ...)
+    that occur ONLY in durations; delayed expressions mostly over scalars that no simplification step touches."""
+    options = dict(options if options is not None else rng.choice(OPTION_SETS))
+    vs = base_vars(rng) + [{"name": n, "kind": "plain", "vec": False, "bind": None} for n in ("d1", "d2")]
+    aliases = {"d1": rng.choice(ALIAS_RHS), "d2": rng.choice(ALIAS_RHS)}
+    if forced:
+        aliases["d1"] = forced[1]
+    eqs = [["eq", ["der", "x1"], ["sub", ["v", "u1"], ["v", "x1"]]],
+           ["eq", ["v", "a1"], ["add", ["v", "x1"], ["v", "c1"]]]]
+    items = []
+    scalar_only = rng.random() < 0.7
+    for k in range(1 if forced else rng.randint(1, 3)):
+        yn = "y%d" % (k + 1)
+        vs.append({"name": yn, "kind": "plain", "vec": False, "bind": None})
+        for _ in range(30):
+            if scalar_only:
+                e = combine(rng, [["v", rng.choice(["x1", "a1", "u1", "p1", "x2", "a2"])] for _ in range(rng.randint(1, 2))])
+            else:
+                e = gen_expr(rng, False, False)
+            leaves = [json.loads(json.dumps(rng.choice(ONLY_DUR))) for _ in range(rng.randint(1, 2))]
+            d = combine(rng, leaves) if not forced else json.loads(json.dumps(forced[0]))
+            if rng.random() < 0.15 and not forced:
+                d = ["if", rng.choice([">", "<="]), d, ["num", 1], ["v", "p1"], ["mul", ["num", 2], ["v", "p1"]]]
+            if consistent(e) and consistent(d) and dep_atoms(e, collect_delays({"eqs": [["eq", ["num", 0], e]]})[1]):
+                break
+        rhs = ["delay", e, d]
+        if rng.random() < 0.3:
+            rhs = ["add", ["mul", ["num", 2], rhs], ["v", "a2"]]
+        items.append(["eq", ["v", yn], rhs])
+    used = set()
+    for q in items:
+        used |= used_names({"eqs": [q]})
+    al_eqs = [["eq", ["v", d], json.loads(json.dumps(aliases[d]))] for d in ("d1", "d2") if d in used]
+    case = {"N": N, "vars": vs, "eqs": eqs + al_eqs + items, "kind": "options", "options": options,
+            "aliases": {d: aliases[d] for d in ("d1", "d2") if d in used}}
+    prune(rng, case, keep=0.05)
+    case["points"] = gen_points(rng, case, 1)
+    return case
+
+
+def option_table(rng):
+    """Finite part of the option stream: each option set x (duration over one array element / alias of each category)."""
+    out = []
+    for o in OPTION_SETS:
+        for d in (["el", "pv", 2], ["el", "cv", 1], ["el", "ufv", 3], ["el", "uv", 2], ["el", "av", 1]):
+            out.append(gen_option_case(rng, o, forced=(d, ["v", "p1"])))
+        for r in ALIAS_RHS:
+            out.append(gen_option_case(rng, o, forced=(["v", "d1"], r)))
+    return out
+
+
 def category_cases(rng):
     """Finite table: one delay whose duration draws on exactly one category, outside and inside a for-loop."""
     durs = [("constant", ["v", "c1"]), ("parameter", ["v", "p1"]), ("bound parameter", ["v", "q1"]),
@@ -701,6 +867,22 @@ def category_cases(rng):
             ("parameter + input", ["add", ["v", "p1"], ["v", "u1"]]),
             ("state * constant", ["mul", ["v", "x1"], ["v", "c1"]]),
             ("negated parameter", ["neg", ["v", "p1"]])]
+    two_p = ["mul", ["num", 2], ["v", "p1"]]
+    for lab, leaf in (("constant", ["v", "c1"]), ("parameter", ["v", "p2"]), ("fixed input", ["v", "uf"]),
+                      ("fixed input element", ["el", "ufv", 1]), ("input", ["v", "u1"]), ("input element", ["el", "uv", 3]),
+                      ("state", ["v", "x1"]), ("derivative", ["der", "x1"]), ("algebraic", ["v", "a1"]),
+                      ("algebraic element", ["el", "av", 1]), ("time", ["time"]),
+                      ("delayed value", ["delay", ["v", "x1"], ["v", "p1"]])):
+        rel = {"constant": ">", "parameter": "<", "input": ">=", "state": "<=", "time": "<"}.get(lab, ">")
+        durs.append(("if-condition on " + lab, ["if", rel, leaf, ["num", 1], ["v", "p1"], two_p]))
+    durs += [("if-condition parameter, branch state", ["if", ">", ["v", "p2"], ["num", 1], ["v", "x1"], ["v", "p1"]]),
+             ("if-condition time vs constant, constant branches", ["if", ">", ["time"], ["v", "c1"], ["num", 1], ["num", 2]]),
+             ("c + if-condition on input", ["add", ["v", "c2"], ["if", ">", ["v", "u1"], ["num", 0], ["num", 1], ["num", 2]]]),
+             ("abs(input) + parameter", ["add", ["abs", ["v", "u1"]], ["v", "p1"]]),
+             ("abs(parameter)", ["abs", ["v", "p1"]]),
+             ("min(parameter, state)", ["min", ["v", "p1"], ["v", "x1"]]),
+             ("max(fixed input, parameter)", ["max", ["v", "uf"], ["v", "p1"]]),
+             ("min(time, constant)", ["min", ["time"], ["v", "c1"]])]
     out = []
     for label, d in durs:
         for where in ("outside", "loop"):
@@ -830,6 +1012,10 @@ def run(ctx):
     n_rand = ctx.scaled(200, 3000)
     for _ in range(n_rand):
         cases.append(gen_model(ctx.rng))
+    cases += option_table(ctx.rng)
+    n_opt = ctx.scaled(60, 1200)
+    for _ in range(n_opt):
+        cases.append(gen_option_case(ctx.rng))
     for _ in range(ctx.scaled(8, 60)):
         cases.append(malformed_case(ctx.rng))
     cases = [prepare(c) for c in cases]
@@ -864,7 +1050,7 @@ def run(ctx):
         if e is not None:
             enc.append(e)
             idx.append(i)
-        elif not v:
+        elif not v and not (c.get("options") or {}).get("detect_aliases"):
             core.violation(ctx, "impl-violation", {"input": c, "observed": r, "what": "observation has no model counterpart"})
     t_coq = time.time()
     bad = core.coq_eval_cases(ctx, "gen", PREAMBLE, "model * list envd * obs", enc, "check_case", shard=40)
